@@ -441,3 +441,50 @@ package server
 //@   at call PrefixAppend#1: assert registered-only-after-the-binding-was-saved: saved && str(callarg1) == tun.ClientHostnamesPrefix(token) && str(callarg2) == hostname
 //@   ensures local-refusals-write-nothing: (aerr != nil || nerr != nil || (checked && cerr != nil) || (checked && cerr == nil && !bound && resolved && (lerr != nil || got != want))) ==> (err != nil && !saved && s.Chord.kvWrites == old(s.Chord.kvWrites))
 //@   ensures local-success-means-bound: err == nil ==> saved
+
+// ---- C27: gateway connections reach only a client published for the hostname
+//@ pure (*go.miragespace.co/specter/spec/protocol.Link).GetHostname
+//@ pure (*go.miragespace.co/specter/spec/protocol.TunnelRoute).GetTunnelDestination
+//@ pure (*go.miragespace.co/specter/spec/protocol.TunnelRoute).GetChordDestination
+//@ pure (*go.miragespace.co/specter/spec/protocol.TunnelRoute).GetClientDestination
+
+//@ func (s *Server) getConn(ctx context.Context, route *protocol.TunnelRoute) (conn net.Conn, err error)
+//@   safety off
+//@   opt frame=off
+//@   requires route != nil && s.TunnelTransport != nil && s.ChordTransport != nil
+//@   ghost viaLocal bool = false
+//@   ghost viaRemote bool = false
+//@   at call DialStream#1: assert a-local-client-is-dialed-directly: callarg1 == route.GetClientDestination() && callarg2 == protocol.Stream_DIRECT && route.GetTunnelDestination().GetAddress() == s.TunnelTransport.Identity().GetAddress()
+//@   at call DialStream#1: ghost viaLocal := true
+//@   at call DialStream#2: assert a-remote-client-is-reached-through-its-gateway: callarg1 == route.GetChordDestination() && callarg2 == protocol.Stream_PROXY && route.GetTunnelDestination().GetAddress() != s.TunnelTransport.Identity().GetAddress()
+//@   at call DialStream#2: ghost viaRemote := true
+//@   at call Send#1: assert the-remote-gateway-is-told-the-route: callarg1 == route
+//@   ensures success-has-a-connection: err == nil ==> conn != nil
+//@   ensures failure-has-none: err != nil ==> conn == nil
+//@   ensures local-exactly-one-way: viaLocal != viaRemote
+
+//@ func (s *Server) DialClient(ctx context.Context, link *protocol.Link) (conn net.Conn, err error)
+//@   safety off
+//@   opt frame=off
+//@   requires link != nil && s.TunnelTransport != nil && s.ChordTransport != nil
+//@   at call getConn#1: assume cached-routes-are-non-nil: ret.routes[rangeindex] != nil
+//@   ghost looked bool = false
+//@   ghost lerr error = nil
+//@   ghost cerr error = nil
+//@   ghost nroutes int = -1
+//@   ghost dialed net.Conn = nil
+//@   ghost sent bool = false
+//@   at call Get#1: assert routes-are-looked-up-for-the-links-hostname: callarg2 == link.GetHostname()
+//@   at after call Get#1: ghost lerr := callresult0.err
+//@   at after call Get#1: ghost cerr := callresult1
+//@   at after call Get#1: ghost nroutes := len(callresult0.routes)
+//@   at after call Get#1: ghost looked := true
+//@   at call getConn#1: assert only-routes-of-this-hostname-are-dialed-in-list-order: callarg2 == ret.routes[rangeindex]
+//@   at after call getConn#1: ghost dialed := callresult0
+//@   at call getConn#1: ghost sent := false
+//@   at call Send#1: assert the-link-with-the-hostname-goes-to-the-dialed-client: callarg0 == dialed && callarg1 == link
+//@   at after call Send#1: ghost sent := callresult == nil
+//@   ensures local-a-lookup-failure-is-returned-as-is: (looked && lerr != nil) ==> (conn == nil && err == lerr)
+//@   ensures local-a-connection-comes-from-a-route-and-carries-the-link: conn != nil ==> (err == nil && looked && lerr == nil && cerr == nil && nroutes >= 1 && conn == dialed && sent)
+//@   ensures local-routes-but-no-reachable-client-is-not-connected: (looked && lerr == nil && cerr == nil && nroutes >= 1 && conn == nil) ==> err == tun.ErrTunnelClientNotConnected
+//@   loop route: invariant idx: -1 <= rangeindex && rangeindex < len(ret.routes) && nroutes == len(ret.routes) && looked && lerr == nil && cerr == nil
